@@ -60,13 +60,14 @@ func c19TextOK(t string) bool {
 }
 
 // c19Allowed mirrors HtmlWalk!Allowed (the trace specification re-checks every step).
-func c19Allowed(f *c19Frame, d c19Desc) bool {
+func c19Allowed(f *c19Frame, d c19Desc, lax bool) bool {
 	if f.planned {
 		return false
 	}
 	switch f.tag {
 	case "ul", "ol":
-		return d.Tag == "li"
+		// Lax: a list or a div directly inside a list (malformed, kept in place by the parser)
+		return d.Tag == "li" || (lax && (d.Tag == "ul" || d.Tag == "ol" || d.Tag == "div"))
 	case "pre", "a", "script", "style", "table", "tr", "thead", "tbody", "tfoot":
 		return false
 	}
@@ -140,7 +141,7 @@ func (b *c19Builder) planStep() {
 
 var c19Forms = []string{"plain", "plain", "plain", "amp", "num"}
 
-func c19RandDoc(rnd *rand.Rand, alphabet []c19Desc, steps, maxDepth int) *c19Builder {
+func c19RandDoc(rnd *rand.Rand, alphabet []c19Desc, steps, maxDepth int, lax bool) *c19Builder {
 	b := &c19Builder{rnd: rnd, stack: []*c19Frame{{tag: "body"}}}
 	b.events = append(b.events, Event{"event": "Reset"})
 	free := 0
@@ -185,7 +186,7 @@ func c19RandDoc(rnd *rand.Rand, alphabet []c19Desc, steps, maxDepth int) *c19Bui
 			var cand []c19Desc
 			if len(b.stack) < maxDepth {
 				for _, d := range alphabet {
-					if c19Allowed(f, d) {
+					if c19Allowed(f, d, lax) {
 						cand = append(cand, d)
 					}
 				}
@@ -214,6 +215,7 @@ func c19RecordCase(i int, raw []byte) Result {
 		N        int       `json:"n"`
 		Steps    int       `json:"steps"`
 		Depth    int       `json:"depth"`
+		Lax      bool      `json:"lax"`
 		Alphabet []c19Desc `json:"alphabet"`
 	}
 	if err := json.Unmarshal(raw, &q); err != nil {
@@ -225,7 +227,17 @@ func c19RecordCase(i int, raw []byte) Result {
 	rnd := newRand(int64(i)*104729 + 19)
 	res := Result{OK: true}
 	for k := 0; k < q.N; k++ {
-		b := c19RandDoc(rnd, q.Alphabet, 4+rnd.Intn(q.Steps), q.Depth)
+		alphabet := q.Alphabet
+		if q.Lax && k%2 == 0 {
+			// list-heavy documents, so that malformed list nesting actually occurs
+			alphabet = nil
+			for _, d := range q.Alphabet {
+				if !d.Planned && d.Attr == "" && (d.Tag == "ul" || d.Tag == "ol" || d.Tag == "li" || d.Tag == "div" || d.Tag == "p" || d.Tag == "h2") {
+					alphabet = append(alphabet, d)
+				}
+			}
+		}
+		b := c19RandDoc(rnd, alphabet, 4+rnd.Intn(q.Steps), q.Depth, q.Lax)
 		src := htmlw.Render(b.stream, nil)
 		if err := htmlw.Audit(src, b.stream); err != nil {
 			panic(fmt.Sprintf("machinery: the HTML5 parser does not rebuild the generated tree: %v\n%s", err, src))
